@@ -38,6 +38,9 @@ pub fn install_panic_hook() {
         } else {
             "<non-string panic>".into()
         };
+        if crate::model::TRACE.load(std::sync::atomic::Ordering::Relaxed) {
+            eprintln!("  panic: {loc} {msg}");
+        }
         let mut g = LAST_PANIC.lock().unwrap_or_else(|e| e.into_inner());
         // keep the first panic of a cascade
         if g.is_none() {
@@ -73,6 +76,9 @@ pub struct World<T: Sc> {
     pub mrhs: bool,
     pub parallel: bool,
     pub opt: OptCfg,
+    /// C06 twin worlds: rows of Phi and of every dPhi/dalpha_k are multiplied by these
+    /// factors inside the model (None = the plain model)
+    pub row_scale: Option<Arc<Vec<T>>>,
 }
 
 impl<T: Sc> World<T> {
@@ -97,6 +103,7 @@ impl<T: Sc> World<T> {
             mrhs: sc.mrhs,
             parallel: sc.parallel,
             opt: sc.opt.clone(),
+            row_scale: None,
         }
     }
     pub fn n(&self) -> usize {
@@ -140,12 +147,14 @@ impl<T: Sc> Factory<T> for HandF {
     type M = SimModel<T>;
     const KIND: ModelKind = ModelKind::Hand;
     fn make(w: &World<T>, ctl: Arc<Ctl>, alpha: &[T]) -> Result<Self::M, String> {
-        Ok(SimModel::new(
+        let mut m = SimModel::new(
             w.spec.clone(),
             w.x.clone(),
             DVector::from_column_slice(alpha),
             ctl,
-        ))
+        );
+        m.row_scale = w.row_scale.clone();
+        Ok(m)
     }
     fn clone_prob(p: &AnyProb<T, Self::M>) -> Option<AnyProb<T, Self::M>> {
         Some(p.try_clone())
@@ -156,7 +165,7 @@ impl<T: Sc> Factory<T> for BuilderF {
     type M = SeparableModel<T>;
     const KIND: ModelKind = ModelKind::Builder;
     fn make(w: &World<T>, ctl: Arc<Ctl>, alpha: &[T]) -> Result<Self::M, String> {
-        build_separable(&w.spec, w.x.clone(), alpha.to_vec(), ctl)
+        build_separable(&w.spec, w.x.clone(), alpha.to_vec(), ctl, w.row_scale.clone())
     }
     fn clone_prob(_p: &AnyProb<T, Self::M>) -> Option<AnyProb<T, Self::M>> {
         None
@@ -318,7 +327,10 @@ pub struct Runner<T: Sc, F: Factory<T>> {
 impl<T: Sc, F: Factory<T>> Runner<T, F> {
     /// construct model + problem for the scenario (this already crosses the model seam)
     pub fn start(sc: &Scenario, ctl: Arc<Ctl>) -> Self {
-        let world = World::<T>::from_scenario(sc);
+        Self::start_with_world(World::<T>::from_scenario(sc), ctl)
+    }
+
+    pub fn start_with_world(world: World<T>, ctl: Arc<Ctl>) -> Self {
         crate::ctl::set_phase("build");
         let built = guarded(|| {
             let model = F::make(&world, ctl.clone(), &world.alpha0)?;
